@@ -979,6 +979,19 @@ let () =
       List.iter (fun c ->
         (try s3_case c
          with e -> Printf.printf "DIFF %s step=0 s3-driver-exception %s\n" c.id (Printexc.to_string e))) (read_cases path)
+  | [_; "refcheck"; path] ->
+      (* the specification side against CPython: one hex string per line -> lexer verdict and reference-machine verdict *)
+      let ic = open_in path in
+      (try while true do
+          let l = input_line ic in
+          match words l with
+          | [id; hx] ->
+              let bs = bytes_of_hex hx in
+              let lexed = lex_all bs in
+              Printf.printf "R %s lex=%d ref=%d memo=%d\n" id (if lexed = None then 0 else 1)
+                (if oracle_C01 bs then 1 else 0) (if oracle_C02 bs then 1 else 0)
+          | _ -> ()
+        done with End_of_file -> close_in ic)
   | [_; "s8"; path] ->
       List.iter (fun c ->
         (try s8_case c
